@@ -64,12 +64,14 @@ def rand_env(rng: random.Random, big=False):
 
 class ExprGen:
     def __init__(self, rng: random.Random, malformed=0.03, floats=0.03, extra_nodes=True,
-                 cse=0.08):
+                 cse=0.08, lists=True, foreign=True):
         self.rng = rng
         self.malformed = malformed
         self.floats = floats
         self.extra_nodes = extra_nodes
         self.cse = cse
+        self.lists = lists
+        self.foreign = foreign
 
     # leaves
     def leaf(self, ctx):
@@ -217,6 +219,8 @@ class ExprGen:
         if k == "tuple":
             return tuple(self.children("num", depth, 0, 3))
         if k == "list":
+            if not self.lists:
+                return tuple(self.children("num", depth, 0, 3))
             return list(self.children("num", depth, 0, 3))
         if k == "extra" and self.extra_nodes:
             kk = r.choice(["slice", "subst", "deriv", "wild", "dot", "star", "fs", "nan", "str",
@@ -236,6 +240,8 @@ class ExprGen:
             if kk == "fs":
                 return p.FunctionSymbol()
             if kk == "nan":
+                return p.NaN()
+            if not self.foreign:
                 return p.NaN()
             if kk == "str":
                 return "abc"
